@@ -26,10 +26,11 @@ def write(t, doc) -> bytes:
     # loader path that only handles "the JSON subset" of JSON5, block-style YAML or XML plists is not the only one driven.
     variant = _variant(doc)
     if t == "json":
-        return json.dumps(doc, indent=[None, None, 1][variant % 3]).encode("utf-8")
+        # (half of the files carry non-ASCII text raw, as UTF-8, the other half as \u escapes)
+        return json.dumps(doc, indent=[None, None, 1][variant % 3], ensure_ascii=variant % 2 == 0).encode("utf-8", "surrogatepass")
     if t == "json5":
         if variant % 2 == 0:
-            return json.dumps(doc).encode("utf-8")
+            return json.dumps(doc, ensure_ascii=variant % 4 == 0).encode("utf-8", "surrogatepass")
         import json5
         # genuine JSON5 syntax: unquoted keys, trailing commas (+ a comment and a single-quoted string when possible)
         text = json5.dumps(doc, indent=[None, 1][variant % 4 // 2], quote_keys=False, trailing_commas=True)
